@@ -10,6 +10,7 @@ mod naming;
 mod node;
 mod privs;
 mod apply;
+mod ack;
 mod sequence;
 mod util;
 
@@ -26,6 +27,7 @@ fn main() {
         "logstore" => logstore::run(),
         "node" => node::run(args.get(2).map(|s| s.as_str()).unwrap_or("")),
         "apply" => apply::run(),
+        "ack" => ack::run(),
         "crash" => crash::run(),
         "crashchild" => crash::run_child(args.get(2).map(|s| s.as_str()).unwrap_or("")),
         "crashprobe" => crash::run_probe(args.get(2).map(|s| s.as_str()).unwrap_or(""), args.get(3).and_then(|s| s.parse().ok()).unwrap_or(0)),
